@@ -263,6 +263,11 @@ def main():
             S.count(repr(seq), f'depth{len(seq)}')
             if len(S.samples) < 3:
                 S.sample(dict(sequence=[list(e) for e in seq], final=recs[-1].get('params')))
+            if len({v.get('key') for v in S.violations}) >= 3 or len(S.violations) >= 40:
+                # enough failing sequences for a replay: do not spend the rest of the (enlarged) budget
+                S.count(None, 'stopped-early-after-violations')
+                ex.shutdown(wait=False, cancel_futures=True)
+                break
     S.finish()
 
 
